@@ -251,6 +251,27 @@ type target struct {
 	st    regStore
 	getM0 func() uint32
 	setM0 func(uint32)
+	// held: the byte slices earlier ReadOperandBytes calls returned (as returned, not copied)
+	// together with what they held then. An answer must not change under the reader's hands
+	// while the wavefront only reads (a caller may hold two answers at once, as the CDNA3
+	// ALU's ds_write2 does); any write of the wavefront drops the held answers, so a store
+	// that answers with a view of its own cells stays admissible.
+	held  []heldAnswer
+	stale string
+}
+
+type heldAnswer struct {
+	op   string
+	raw  []byte
+	then []byte
+}
+
+func (t *target) checkHeld(now string) {
+	for _, h := range t.held {
+		if t.stale == "" && !bytes.Equal(h.raw, h.then) {
+			t.stale = fmt.Sprintf("%s: the bytes answered to the earlier %s were %x and are %x after %s (no write in between)", t.mode, h.op, h.then, h.raw, now)
+		}
+	}
 }
 
 // answer of one store to one op
@@ -280,6 +301,12 @@ func (t *target) apply(op Op) (a answer) {
 			a = answer{panic: strings.TrimSpace(fmt.Sprint(r))}
 		}
 	}()
+	switch op.API {
+	case "Set", "WriteOperand", "WriteOperandBytes":
+		t.held = nil
+	default:
+		defer t.checkHeld(op.String())
+	}
 	switch op.API {
 	case "Set":
 		switch op.Reg {
@@ -315,7 +342,11 @@ func (t *target) apply(op Op) (a answer) {
 		return answer{val: t.st.ReadOperand(o, op.Lane)}
 	case "ReadOperandBytes":
 		b := t.st.ReadOperandBytes(o, op.Lane, op.N)
-		return answer{bytes: append([]byte{}, b...)}
+		cp := append([]byte{}, b...)
+		if len(t.held) < 8 {
+			t.held = append(t.held, heldAnswer{op: op.String(), raw: b, then: cp})
+		}
+		return answer{bytes: cp}
 	}
 	return answer{}
 }
@@ -615,8 +646,8 @@ func RunCase(c Case) (res stats.Result) {
 		tw.SIMDID, tw.SRegOffset, tw.VRegOffset = w.SIMD, w.SOff, w.VOff
 		tw.RegAccessor = &cu.CURegFileAccessor{CU: cuv, WF: tw}
 		emuWfs[wi] = ew
-		emus[wi] = &target{"emu", ew, func() uint32 { return ew.M0 }, func(v uint32) { ew.M0 = v }}
-		tims[wi] = &target{"timing", tw, func() uint32 { return tw.M0 }, func(v uint32) { tw.M0 = v }}
+		emus[wi] = &target{mode: "emu", st: ew, getM0: func() uint32 { return ew.M0 }, setM0: func(v uint32) { ew.M0 = v }}
+		tims[wi] = &target{mode: "timing", st: tw, getM0: func() uint32 { return tw.M0 }, setM0: func(v uint32) { tw.M0 = v }}
 		for _, t := range []*target{emus[wi], tims[wi]} {
 			t.st.SetVCC(uint64(m.VCC[1])<<32 | uint64(m.VCC[0]))
 			t.st.SetEXEC(uint64(m.EXEC[1])<<32 | uint64(m.EXEC[0]))
@@ -637,6 +668,11 @@ func RunCase(c Case) (res stats.Result) {
 		want := models[op.Wf].apply(op)
 		ea := emus[op.Wf].apply(op)
 		ta := tims[op.Wf].apply(op)
+		for _, t := range []*target{emus[op.Wf], tims[op.Wf]} {
+			if t.stale != "" {
+				return fmt.Sprintf("op %d %s[%s]: %s", i, what, op, t.stale)
+			}
+		}
 		if sameAnswer(ea, want) && sameAnswer(ta, want) {
 			return ""
 		}
